@@ -3,7 +3,7 @@
    Only property theorems live here; each is closed by `exact` and followed by Print Assumptions. *)
 From RichModel Require Import Prelude Cells Segments SpecCells Frames SpecFrames.
 From RichGen Require Import FrameBoxes.
-From RichProofs Require Import CellsP SegmentsP SegmentsP2 FramesP FramesP2 FramesP3 FramesP4 FramesP5 FramesP6.
+From RichProofs Require Import CellsP SegmentsP SegmentsP2 FramesP FramesP2 FramesP3 FramesP4 FramesP5 FramesP6 FramesP7.
 From RichProofs.bridge Require BridgeBar BridgeProgressBar.   (* tie 1 (T2): Bar.__rich_console__ regenerated from rich/bar.py *)
 
 (* (1) Padding: all lines `width` cells (= W when expanding); t blank rows, the child's own lines
@@ -225,3 +225,19 @@ Print Assumptions C08_tree_prefix.
 Theorem C08_guide_four_cells : forall ascii legacy g, guide_ok g -> cell_len (guide_text ascii legacy g) = 4.
 Proof. exact guide_text_4. Qed.
 Print Assumptions C08_guide_four_cells.
+
+(* (9) Printing a frame: console.print(r, width=N) lays the frame out at min(N, W) (N = 0 / no width: W) --
+   the rule is a T3 fact regenerated from Console.print -- so every frame theorem above applies at that
+   width, and the final crop at the console width leaves lines that fit untouched: the frame is printed
+   intact. *)
+Theorem C08_print_width_rule : forall width W, 0 <= W ->
+  match width with Some n => 0 <= n | None => True end ->
+  let E := print_render_width width W in
+  E <= W /\ E = match width with None => W | Some n => if n =? 0 then W else Z.min n W end.
+Proof. exact print_width_rule. Qed.
+Print Assumptions C08_print_width_rule.
+
+Theorem C08_print_keeps_fitting_lines : forall W segs, 0 <= W ->
+  Forall (fun l : line => line_len l <= W) (split_lines segs) -> print_lines W segs = split_lines segs.
+Proof. exact print_keeps_fitting_lines. Qed.
+Print Assumptions C08_print_keeps_fitting_lines.
